@@ -351,6 +351,18 @@ func c04Verifier(c *Ctx, V *ssa.Function, sCall *ssa.Call, S, P *ssa.Function) {
 	for _, ex := range s.Exits {
 		_, isWild := hasLabel(ex.Checked, "T(call:ngo/internal/slices.Contains(param:"+idents.Name()+fmt.Sprintf(",const:%q))", wc))
 		_, isSub := hasLabel(ex.Checked, "T(call:"+fnName(S)+"(")
+		if isWild && !isSub {
+			// the lone wildcard accepts every subject: nothing else may gate this exit
+			var extra []string
+			for l := range ex.Checked {
+				rest := strings.Replace(l, "call:ngo/internal/slices.Contains(", "", 1)
+				if strings.Contains(rest, "call:") || strings.Contains(rest, "param:"+certs.Name()) {
+					extra = append(extra, l)
+				}
+			}
+			c.Check(len(extra) == 0, "verifier/wildcard-unconditional", "the wildcard exit is reachable through the wildcard membership test alone (the lone wildcard accepts every subject, interpretable or not)", w.InstrPos(ex.Ret),
+				fmt.Sprintf("the wildcard exit additionally requires: %v", extra))
+		}
 		if isSub {
 			nSubset++
 			_, e1 := hasLabel(ex.Checked, "EQ(call:"+pName+"(call:(crypto/x509/pkix.Name).String(", "#err,nil)")
